@@ -14,7 +14,7 @@ from ..digest import frame_digest, obj_digest, chunk_tables_digest
 TITLE = 'ceilometer names are labels only'
 EXPLORER = 'E1'
 CLAUSES = ['C16.rename_equal', 'C16.order_reversing', 'C16.with_exclusion', 'C16.lookback_lt100', 'C16.simultaneous_hits',
-           'C16.three_ceilos', 'C16.strip_collision']
+           'C16.three_ceilos', 'C16.strip_collision', 'C16.absent_excluded']
 RULE = ('2-ceilometer scenes x all 72 injective maps and 3-ceilometer scenes x all 504 injective maps into the pool '
         "{'a','B','10','9','',' ','A','AB','x'*50} x {no exclusion, each single exclusion} x look-back {100,50,30}; reference scenes "
         '(2-7 real instrument names) x 4 maps. distinct_nontrivial = distinct (scene, parameters) pairs with >= 1 slice')
@@ -120,6 +120,10 @@ def run_case(case):
         excls = [[]] + [[n] for n in names]
         if case.get('tier') == 'quick':
             excls = excls[:2]
+    absent_maps = None
+    if case['fam'] == 'two' and lb == 100:
+        # an excluded instrument that is out of service (no hit in the chunk): its name is renamed as well
+        absent_maps = [dict(zip(names + ['zz-absent'], img)) for img in itertools.permutations(POOL, 3)][::7]
     sim = len({(r[1]) for r in rows}) < len(rows)
     for excl in excls:
         prms = {'BASE_LVL_LOOKBACK_PERC': lb}
@@ -160,6 +164,24 @@ def run_case(case):
                     detail['msgs_plain'] = r0.msgs; detail['msgs_renamed'] = r.msgs
                 res['violations'].append({'clause': 'C16.rename_equal', 'site': 'digest' if got[0] == 'OK' else f'{got[1]}@{got[2]}',
                                           'detail': detail, 'sub': {**{k: v for k, v in case.items() if k != 'only'}, 'only': [mi, excl]}})
+    if absent_maps and 'only' not in case or ('only' in case and case['only'][0] == 'absent'):
+        for excl in ([names[1], 'zz-absent'], ['zz-absent']):
+            prms = {'BASE_LVL_LOOKBACK_PERC': lb, 'EXCLUDE_FOR_BASE_HEIGHT_CALC': excl}
+            ref, r0 = observe(rows, prms)
+            res['n'] += 1
+            for mi, m in enumerate(absent_maps or []):
+                if 'only' in case and case['only'] != ['absent', mi, excl]:
+                    continue
+                inv = {v: k for k, v in m.items()}
+                rows2 = [[m[r[0]]] + r[1:] for r in rows]
+                prms2 = dict(prms); prms2['EXCLUDE_FOR_BASE_HEIGHT_CALC'] = [m[e] for e in excl]
+                got, r = observe(rows2, prms2, inv)
+                res['n'] += 1
+                hit('C16.rename_equal'); hit('C16.absent_excluded')
+                if got != ref:
+                    res['violations'].append({'clause': 'C16.rename_equal', 'site': 'digest' if got[0] == 'OK' else f'{got[1]}@{got[2]}',
+                                              'detail': {'mapping': m, 'prms': prms2, 'what': 'exclusion list names an instrument without hits'},
+                                              'sub': {**{k: v for k, v in case.items() if k != 'only'}, 'only': ['absent', mi, excl]}})
     res['digests'] = sorted(res['digests'])
     res['sample'] = {'fam': case['fam'], 'scene': case['name'], 'maps': len(maps), 'lookback': lb}
     return res
